@@ -47,7 +47,7 @@ def main(tier):
                 "the catalogue lines are dealt round-robin into 3 files; 8 rg invocations per scenario. Non-trivial: at least two files "
                 "with different non-zero counts and some line with several matches; distinct by (pattern, options, max-count, termination).")
     chk.assumptions = ["regex semantics as in specs/common/RegexSem.tla", "bounds: specs/regex/MCPrinter.tla"]
-    res = vlib.tlc("regex/MCPrinter", "C09_quick", workers=12, timeout=3600)
+    res = vlib.tlc("regex/MCPrinter", "C09_quick" if tier == "quick" else "C09_deep", workers=12, timeout=7200, xmx="16g")
     if res.rc != 0:
         raise vlib.ToolError("TLC failed:\n" + res.tail(40))
     chk.add_tlc(res)
@@ -203,7 +203,7 @@ def main(tier):
 def ml_part(chk, tier):
     """Multi-line search: --count-matches, the number of -o records and the JSON submatches all equal the number
     of successive matches the reference model finds; every JSON match message has a submatch."""
-    res = vlib.tlc("regex/MCGrepML", "C09_ml", workers=12, timeout=3600)
+    res = vlib.tlc("regex/MCGrepML", "C09_ml" if tier == "quick" else "C09_ml_deep", workers=12, timeout=7200, xmx="16g")
     if res.rc != 0:
         raise vlib.ToolError("TLC failed on C09_ml:\n" + res.tail(40))
     chk.add_tlc(res)
